@@ -627,6 +627,9 @@ def run(ctx):
             scs, refmap = [], {}
             for h in batch:
                 sc = to_scenario(h, pool)
+                sc.setdefault("timeout_ms", 60000)            # generous: a slow machine is not a verdict
+                sc.setdefault("scenario_timeout_ms", 300000)
+                sc.setdefault("drain_timeout_ms", 20000)
                 if h.get("burst"):
                     sc.update({"timeout_ms": 120000, "scenario_timeout_ms": 400000, "drain_timeout_ms": 60000})
                 scs.append(sc)
@@ -638,6 +641,21 @@ def run(ctx):
             return scs, res[:len(batch)], {i: res[k] for i, k in refmap.items()}
 
         scs, results, refs = run_batch(hs, shards=4 if ctx.quick else 8)
+
+        def inconclusive(r):
+            """the runner itself gave up (scenario / response timeout, driver error): not an observation of the agent"""
+            return (not r.get("ok")) or any(x.get("timeout") for c in r.get("connections", []) for x in c.get("responses", [])) \
+                or any(c.get("connect_error") for c in r.get("connections", []))
+        retried = 0
+        for i, h in enumerate(hs):
+            if inconclusive(results[i]) and not results[i].get("panics"):
+                _, rr, rf = run_batch([h], shards=1)           # once more, alone
+                results[i] = rr[0]
+                if 0 in rf:
+                    refs[i] = rf[0]
+                retried += 1
+        if retried:
+            ctx.notes.append("%d histories were run a second time because the runner timed out on the first attempt" % retried)
         # the histories that exist for the sake of status.json are run again, alone, when the file could not be read (load)
         for i, h in enumerate(hs):
             for _ in range(2):
